@@ -1,3 +1,3 @@
 SPECIFICATION Spec
-INVARIANTS Theorems Emit
+INVARIANTS Theorems Emit EmitPlan
 CHECK_DEADLOCK FALSE
